@@ -12,8 +12,9 @@
               operator inside the spectrum of the original + sector ground energy kept (numpy eigvalsh);
               expectation value before/after trimming (numpy statevector); no eigenvalue moves by more
               than epsilon after compression (numpy eigvalsh)
-On the installed NumPy 2 `np.product` does not exist: MultiformOperator.__mul__ and get_eigenvalues raise.
-The check records that, then sets `np.product = np.prod` IN THIS PROCESS ONLY to look behind it.
+If /repo still uses `np.product` / `np.where(commutes is False)` (both fail on NumPy 2) the check records that and
+installs a proxy for the name `np` of the two tapering modules IN THIS PROCESS ONLY to look behind it; on the
+repaired tree the probes pass and the proxy is never installed.
 """
 import itertools
 import json
@@ -281,10 +282,15 @@ class NumpyCompat:
 
 
 class shim:
-    def __init__(self, use_where=True):
+    """No-op unless `active` (set by the probes when the installed NumPy defects are present in /repo)."""
+    def __init__(self, use_where=True, active=True):
         self.use_where = use_where
+        self.active = active
+        self.mods, self.saved = [], []
 
     def __enter__(self):
+        if not self.active:
+            return
         from tangelo.toolboxes.operators import z2_tapering, multiformoperator
         self.mods = [z2_tapering, multiformoperator]
         self.saved = [m.np for m in self.mods]
@@ -296,10 +302,10 @@ class shim:
             m.np = o
 
 
-def probe_np_where(ck):
+def probe_np_where(ck, product_needed):
     """With np.product supplied, does do_taper get past `np.where(commutes is False)`?"""
     rows = [((1, 1), 1.0 + 0j), ((2, 2), 0.5 + 0j)]
-    with shim(use_where=False):
+    with shim(use_where=False, active=product_needed):
         res = run_tapering_impl(rows, 2, 0, 0, "JW", False)
     ck.case("taper-pipeline", "probe:np.where", nontrivial=True, tags=["np.where-probe"])
     if "err" in res and "nonzero on 0d" in res.get("exc", ""):
@@ -942,6 +948,22 @@ def frob_oracle(rows, n, eps, kept_rows):
     return float(np.max(np.abs(np.linalg.eigvalsh(h) - np.linalg.eigvalsh(h2))))
 
 
+def compress_float_boundary(rows, eps, n, x2):
+    """True when some running sum hits the threshold EXACTLY (coef2_sum * frob_factor^2 == epsilon^2) while
+    frob_factor = 2**(x2/2) is irrational: in exact arithmetic sqrt(s) > eps/f is then false (term discarded, as the
+    model says), but the implementation compares two rounded doubles that should be equal, so its answer is
+    rounding noise.  Such cases are not compared with the model (the eigenvalue oracle still runs on them)."""
+    if x2 % 2 == 0 or eps < 0:
+        return False
+    vals = sorted(Fraction(c.real) ** 2 + Fraction(c.imag) ** 2 for _, c in rows)
+    s = Fraction(0)
+    for v in vals:
+        s += v
+        if s * 2 ** x2 == eps * eps:
+            return True
+    return False
+
+
 def run_compress_impl(rows, eps, n):
     op = qop_from_rows(rows)
     keys = [codes_to_term(r) for r, _ in rows]
@@ -1008,7 +1030,13 @@ def stream_compress(ck, n_cases):
         if isinstance(out, list):
             check_compress_oracle(ck, n, rows, eps, out)
     model = ck.coq_eval("compress", PREAMBLE, exprs, shard=100)
+    x2_name = ck.notes.get("frob_exponent", "x2_floor_half")
     for (n, rows, eps), a, b in zip(cases, impl, model):
+        x2 = {"x2_floor_half": 2 * (n // 2), "x2_ceil_half": 2 * ((n + 1) // 2), "x2_true_half": n}[x2_name]
+        if compress_float_boundary(rows, eps, n, x2):
+            ck.not_evaluated += 1
+            ck.stream("frobenius")["dist"]["float-boundary-not-compared"] = ck.stream("frobenius")["dist"].get("float-boundary-not-compared", 0) + 1
+            continue
         disc = None if isinstance(a, str) else len(rows) - len(a)
         ck.case("frobenius", json.dumps([n, [(codes_str(r), c.real, c.imag) for r, c in rows], str(eps)]), nontrivial=bool(disc),
                 sample={"n_qubits": n, "terms": [(codes_str(r), c.real, c.imag) for r, c in rows], "epsilon": str(eps),
@@ -1042,6 +1070,17 @@ def replay_known_witnesses(ck):
     ck.notes["frobenius_odd_witness_kept_terms"] = kept
     check_compress_oracle(ck, 1, rows, Fraction(1), kept)
     ck.case("frobenius", "witness:0.6I+0.6Z", nontrivial=True, tags=["refutation-witness"])
+
+
+DUP_H = [((2, 0, 2, 0), -0.875 + 0j), ((1, 0, 1, 0), -1.875 + 0j), ((0, 2, 0, 0), 0.25 + 0j), ((0, 0, 0, 1), 1.0 + 0j)]
+
+
+def probe_duplicate_index(ck):
+    """The operator of Coq's C14_cliffords_duplicate_column_witness through the property oracle."""
+    res = run_tapering_impl(DUP_H, 4, 1, 0, "JW", False)
+    ck.case("taper-pipeline", "probe:duplicate-column-witness", nontrivial=True, tags=["duplicate-index-probe"])
+    check_spectrum(ck, DUP_H, 4, res, "QubitTapering",
+                   {"kind": "pipeline", "n": 4, "rows": [[list(r), [c.real, c.imag]] for r, c in DUP_H], "n_electrons": 1})
 
 
 CULL_H = [((1, 0), 1.0 + 0j), ((0, 1), 0.75 + 0j), ((2, 2), 0.5 + 0j), ((3, 3), 0.5 + 0j)]
@@ -1080,16 +1119,21 @@ def run(ck):
                   "Linq/CircuitModel.v (split, entangled indices, +, trim_qubits) tied by the C11 correspondence",
                   "openfermion QubitOperator arithmetic / compress, numpy array semantics, tangelo get_vector and "
                   "fermion_to_qubit_mapping (inputs of the tapering pipeline) are not modelled"]
-    ck.assumptions = ["inside the harness process (never in /repo) the name `np` of z2_tapering.py / multiformoperator.py is "
-                      "replaced by a proxy supplying np.product and NumPy-1 semantics of np.where(<python bool>); everything "
-                      "observed about the tapering pipeline beyond the three recorded NumPy defects is conditional on that",
+    ck.assumptions = ["the NumPy proxy for z2_tapering.py / multiformoperator.py (np.product, NumPy-1 np.where(<python bool>)) is "
+                      "installed inside the harness process only when the probes still observe those defects in /repo "
+                      "(coverage.numpy_proxy_active; false on the repaired tree: the real numpy is used throughout)",
+                      "compression cases whose running sum hits the threshold exactly while frob_factor is irrational (odd n, "
+                      "2**(n/2)) are float-boundary cases: counted in not_evaluated, not compared with the exact model",
                       "angles on the pi/8 grid; the 1e-5 tolerance of is_bitflip_gate is not exercised (exact odd multiples of pi only)",
                       "coefficients on dyadic grids so that float sums, sqrt and comparisons of the implementation are exact",
                       "Weyl's inequality and ||D||_op <= ||D||_F are not formalised: the epsilon clause is proved as the "
                       "coefficient bound and searched numerically"]
     try:
         ck.write_gen("GateTables", gate_tables.emit(gate_tables.extract(REPO)))
-        ck.write_gen("ReductionTables", reduction_tables.emit(reduction_tables.extract(REPO)))
+        rt = reduction_tables.extract(REPO)
+        ck.write_gen("ReductionTables", reduction_tables.emit(rt))
+        ck.notes["frob_exponent"] = rt["frob"]["x2"]
+        ck.notes["do_taper_culls"] = rt["taper"]["cull"]
     except TranslateError as e:
         ck.violation("C14/translator/reduction_tables", "translator no longer recognises the source: %s" % e,
                      {"kind": "translator", "error": str(e)}, found_input=False)
@@ -1113,10 +1157,13 @@ def run(ck):
     # ---- trimming
     stream_trim(ck, 150 if q else 2000)
     # ---- tapering pipeline: record the NumPy defect, then look behind it
-    probe_np_product(ck)
-    ck.notes["np_where_shim_used"] = probe_np_where(ck)
-    with shim(use_where=True):
+    product_needed = probe_np_product(ck)
+    where_needed = probe_np_where(ck, product_needed)
+    ck.notes["np_where_shim_used"] = where_needed
+    ck.notes["numpy_proxy_active"] = bool(product_needed or where_needed)
+    with shim(use_where=True, active=bool(product_needed or where_needed)):
         probe_culling(ck)
+        probe_duplicate_index(ck)
         stream_pipeline(ck, 40 if q else 260)
         stream_molecules(ck)
 
@@ -1142,7 +1189,7 @@ def replay(data):
         print("no longer fails")
         return 0
     if kind == "np_where":
-        with shim(use_where=False):
+        with shim(use_where=False, active=not hasattr(np, "product")):
             res = run_tapering_impl([((1, 1), 1.0 + 0j), ((2, 2), 0.5 + 0j)], 2, 0, 0, "JW", False)
         print("QubitTapering(Z0Z1 + 0.5 X0X1) with np.product supplied:", res.get("exc", "ok"))
         return 1 if "err" in res else 0
@@ -1154,9 +1201,10 @@ def replay(data):
         print("kept terms:", kept, "max eigenvalue shift:", shift, "epsilon:", float(eps))
         return 1 if shift > float(eps) + TOL else 0
     if kind in ("taper_noncommuting", "pipeline"):
-        print("(np.product / np.where(bool) supplied inside the replay process only)")
         rows = [(tuple(a), complex(*c)) for a, c in r["rows"]]
-        shim(True).__enter__()
+        if not hasattr(np, "product") and "np.product" in (REPO / "tangelo/toolboxes/operators/multiformoperator.py").read_text():
+            print("(np.product / np.where(bool) supplied inside the replay process only)")
+            shim(True).__enter__()
         res = run_tapering_impl(rows, r["n"], r.get("n_electrons", 0), 0, "JW", False)
         if "err" in res:
             print("QubitTapering raised", res["exc"])
